@@ -96,6 +96,48 @@ class MapSetNew(OpSpec):
 
 
 @register
+class MetaMutate(OpSpec):
+    """In-place edit of a list- or dict-valued header field of a chart / set (o2jam level and count lists, osu tags,
+    BMS sample table): lst[0] = x, lst.append(x), d[k] = v.  A mutating op on its handle; every other handle must stay."""
+
+    name = "meta.mutate"
+
+    def run(self, sess, op):
+        out = Outcome(mutates=[op["h"]], own_kind=False)
+        h = sess.world.get(op["h"])
+        import dataclasses as _dc
+
+        names = [f.name for f in _dc.fields(h.obj) if not f.name.startswith("_") and f.name not in ("objs", "maps")
+                 and isinstance(getattr(h.obj, f.name, None), (list, dict))] if _dc.is_dataclass(h.obj) else []
+        if not names:
+            out.skipped = True
+            out.mutates = None
+            return out
+        name = sorted(names)[op.get("field_ix", 0) % len(names)]
+        v = getattr(h.obj, name)
+
+        def do():
+            if isinstance(v, list):
+                if v and op.get("how") == "setitem":
+                    v[0] = op.get("value", 424242) if not isinstance(v[0], str) else "edited"
+                else:
+                    v.append(op.get("value", 424242) if not (v and isinstance(v[0], str)) else "edited")
+            else:
+                k = next(iter(v), None)
+                if k is None or op.get("how") != "setitem":
+                    v[b"ZX" if any(isinstance(x, bytes) for x in v) or h.game == "bms" else "zx"] = b"edited.wav" if h.game == "bms" else "edited"
+                else:
+                    v[k] = b"edited.wav" if isinstance(v[k], bytes) else "edited"
+
+        res = lib_call(do)  # plain Python on the caller's side; routed through lib_call only for uniform error handling
+        if not res.ok:
+            raise HarnessError(f"meta.mutate failed: {res.exc!r}")
+        out.note = ("meta.mutate", name, op.get("how"))
+        out.probes.append("meta_list_field_edited")
+        return out
+
+
+@register
 class MapSetGetMap(OpSpec):
     name = "mapset.get_map"
 
